@@ -152,7 +152,16 @@ def w4_proxies(ctx, W):
             elif k == 'AccEProxy':
                 i = s['targets'][0][1]
                 wg = '{(return (& (>> ([] (. $0 %s::a) %d) 32) 15))}' % (RS, i)
-                wsb = '{(&= ([] (. $0 %s::a) %d) 4294967295) (|= ([] (. $0 %s::a) %d) (<< (call SignExtend<4U, unsigned int> $1) 32))}' % (RS, i, RS, i)
+                # Set: the accumulator keeps its low 32 bits and takes the sign-extended 4-bit value above them, however the
+                # statement(s) are phrased (one assignment or an &= / |= pair)
+                from .. import summ as _summ, boolform as _bf
+                AI = '([] (. $0 %s::a) %d)' % (RS, i)
+                fv = _summ.summary(ctx, ps, asserts='ignore').final_values()
+                want_v = '(| (& %s 4294967295) (<< (call SignExtend<4U, unsigned int> $1) 32))' % AI
+                if set(fv) != {AI} or set(fv[AI]) != {want_v} or _bf.equivalent(fv[AI][want_v], _bf.T) is not True:
+                    ctx.report(R, ps, ps['body'], key + '::Set', 'Set leaves %s, expected a[%d] = (a[%d] & 0xFFFFFFFF) | SignExtend<4>(value) << 32'
+                               % ({k_[-30:]: sorted(v_)[:2] for k_, v_ in fv.items()}, i, i))
+                wsb = sb
             elif k == 'LPRedirector':
                 wg = '{(return (. $0 %s::lp))}' % RS
                 wsb = None
